@@ -428,7 +428,7 @@ func TestParseInt(t *testing.T) {
 		{"9007199254740993", u, 9007199254740992}, {"9007199254740995", u, 9007199254740996},
 		{"-9223372036854775808", u, -9223372036854775808}, {"18446744073709551616", u, 18446744073709551616},
 		{"1e3", u, 1}, {"1.9", u, 1}, {"", u, nan}, {"-", u, nan}, {"+", u, nan}, {"- 1", u, nan}, {"1_0", u, 1}, {"\ufeff\u00a0 7", u, 7},
-		{"100000000000000000000000000000000000000000000000000000001", 2, 72057594037927936},  // 2^56+1 -> 2^56
+		{"100000000000000000000000000000000000000000000000000000001", 2, 72057594037927936}, // 2^56+1 -> 2^56
 		{"100000000000000000000000000000000000000000000000000001001", 2, 72057594037927952}, // 2^56+9 -> 2^56+16
 	}
 	for _, c := range cases {
